@@ -300,4 +300,5 @@ def run(chk, ctx):
     c06.r2(chk, ctx)                                         # a late sibling failure after the state was caught is Task.Terminated, so the catcher runs once
     from . import round4
     round4.batch_reentry_keeps_retry(chk, ctx)
+    round4.teardown_scoped_to_terminated_groups(chk, ctx)   # 'the state is re-run': retrying a nested fan-out must not cancel the enclosing one
     chk.assume("one retry counter per state (the engine does not count per retrier; the property's wording does not pin this down)")
